@@ -70,6 +70,9 @@ class RealResult(object):
         self.table = None           # [func index | None] of table 0
         self.bound = {}             # {import ordinal: bool}
         self.init = None            # state right after instantiation: {'mem', 'all_globals', 'table', 'mem_bytes'} (init_dump=True)
+        self.child_dumps = {}       # {child k: {'self': dump, 'parent': dump}} right after k was made by NewChild (init_dump=True); filled
+                                    # on the CHILD's result; dump = {'mem', 'all_globals', 'table', 'mem_bytes', 'bound'}
+        self.child_of = None        # parent instance when this instance was made by NewChild
         self.messages = []
         self.build = []             # command lines
         self.ub = None              # first line of a sanitizer report
@@ -79,6 +82,7 @@ class RealResult(object):
         d.pop("mem_bytes", None)
         if d.get("init"):
             d["init"] = {k: v for k, v in d["init"].items() if k != "mem_bytes"}
+        d["child_dumps"] = {str(k): {w: {f: v for f, v in dd.items() if f != "mem_bytes"} for w, dd in x.items()} for k, x in self.child_dumps.items()}
         d["globals"] = {k.hex() if isinstance(k, bytes) else str(k): v for k, v in self.globals.items()}
         return d
 
@@ -217,8 +221,12 @@ def show(ty, expr):
     return "f64:%llx", "(unsigned long long)bits_f64(%s)" % expr
 
 
-def gen_main(module, name, header_text, script, imports_spec=None, instances=1, init_dump=False):
-    """C text of the embedder for `script` = [(instance, export name bytes, [(ty, bits)])]."""
+def gen_main(module, name, header_text, script, imports_spec=None, instances=1, init_dump=False, children=None):
+    """C text of the embedder for `script` = [(instance, export name bytes, [(ty, bits)])].
+    children = {k: (parent, at)}: instance k is not instantiated at start-up but made by `parent`'s common.newChild (the emitted
+    <module>NewChild) right before script entry `at` (at = len(script): after the last call); it is given the parent's imported
+    objects by the resolver."""
+    children = children or {}
     h = parse_header(header_text, module, name)
     gl = (imports_spec or {}).get("globals", {})
     storage, alloc, resolve, hosts, funcids, dumps = [], [], [], [], [], []
@@ -245,7 +253,7 @@ def gen_main(module, name, header_text, script, imports_spec=None, instances=1, 
             for k in range(len(ft.params)):
                 body.append("  h = hmix(h, b%d);" % k)
             body.append("  h = hfin(h);")
-            body.append('  OUT("h %%d %%d %d %%d%s\\n", cur, callno, instance == (void*)&inst[cur]%s);' % (fidx, "".join(fmts), "".join(fargs)))
+            body.append('  OUT("h %%d %%d %d %%d%s\\n", cur, callno, instOk(instance)%s);' % (fidx, "".join(fmts), "".join(fargs)))
             if ft.results:
                 body.append("  return hres_%s(h);" % VTN[ft.results[0]])
             body.append("}")
@@ -259,24 +267,24 @@ def gen_main(module, name, header_text, script, imports_spec=None, instances=1, 
             mf = (imports_spec or {}).get("mem_fill") or {}
             for off, hx in (mf.get(n, mf.get(str(n))) or []):      # bytes the embedder wrote before instantiation
                 alloc.append('    memcpy(impmem%d[k]->data + %dU, %s, %d);' % (n, int(off), c_string(bytes.fromhex(hx)), len(hx) // 2))
-            resolve.append("  if (!strcmp(module, %s) && !strcmp(name, %s)) return impmem%d[cur];" % (c_string(im.module), c_string(im.field), n))
-            dumps.append('    OUT("b %%d %d %%d\\n", k, inst[k].%s == impmem%d[k]);' % (n, h.mem_imports[mi][1], n))
+            resolve.append("  if (!strcmp(module, %s) && !strcmp(name, %s)) return impmem%d[rescur];" % (c_string(im.module), c_string(im.field), n))
+            dumps.append('    OUT("b %%d %d %%d\\n", k, INST(k).%s == impmem%d[impOwner[k]]);' % (n, h.mem_imports[mi][1], n))
             mi += 1
         elif im.kind == "table":
             lim = im.desc.limits
             storage.append("static wasmTable imptab%d[NINST];" % n)
             alloc.append("    wasmTableAllocate(&imptab%d[k], %dU, %uU);" % (n, lim.min, lim.max if lim.max is not None else 4294967295))
-            resolve.append("  if (!strcmp(module, %s) && !strcmp(name, %s)) return &imptab%d[cur];" % (c_string(im.module), c_string(im.field), n))
-            dumps.append('    OUT("b %%d %d %%d\\n", k, inst[k].%s == &imptab%d[k]);' % (n, h.table_imports[ti][1], n))
+            resolve.append("  if (!strcmp(module, %s) && !strcmp(name, %s)) return &imptab%d[rescur];" % (c_string(im.module), c_string(im.field), n))
+            dumps.append('    OUT("b %%d %d %%d\\n", k, INST(k).%s == &imptab%d[impOwner[k]]);' % (n, h.table_imports[ti][1], n))
             ti += 1
         else:
             vt = im.desc.valtype
             bits = int(gl.get(n, gl.get(str(n), 0)))
             storage.append("static %s impglob%d[NINST];" % (CT[vt], n))
             alloc.append("    impglob%d[k] = %s;" % (n, lit(vt, bits)))
-            resolve.append("  if (!strcmp(module, %s) && !strcmp(name, %s)) return &impglob%d[cur];" % (c_string(im.module), c_string(im.field), n))
-            dumps.append('    OUT("b %%d %d %%d\\n", k, inst[k].%s == &impglob%d[k]);' % (n, h.global_imports[gi][1], n))
-            f, a = show(vt, "impglob%d[k]" % n)
+            resolve.append("  if (!strcmp(module, %s) && !strcmp(name, %s)) return &impglob%d[rescur];" % (c_string(im.module), c_string(im.field), n))
+            dumps.append('    OUT("b %%d %d %%d\\n", k, INST(k).%s == &impglob%d[impOwner[k]]);' % (n, h.global_imports[gi][1], n))
+            f, a = show(vt, "impglob%d[impOwner[k]]" % n)
             dumps.append('    OUT("g %%d %d %s\\n", k, %s);' % (gi, f, a))
             gi += 1
     n_fi = fidx_total = sum(1 for i in module.imports if i.kind == "func")
@@ -284,14 +292,14 @@ def gen_main(module, name, header_text, script, imports_spec=None, instances=1, 
         funcids.append("  {(wasmFunc)&%s, %d}," % (cname, n_fi + k))
     n_gi = gi
     for k, g in enumerate(module.globals):
-        f, a = show(g.type.valtype, "inst[k].%s" % h.globals[k][1])
+        f, a = show(g.type.valtype, "INST(k).%s" % h.globals[k][1])
         dumps.append('    OUT("g %%d %d %s\\n", k, %s);' % (n_gi + k, f, a))
     # table 0
     timp = [n for n, i in enumerate(module.imports) if i.kind == "table"]
     if timp:
-        dumps.append("    dumpTable(k, &imptab%d[k]);" % timp[0])
+        dumps.append("    dumpTable(k, &imptab%d[impOwner[k]]);" % timp[0])
     elif module.tables:
-        dumps.append("    if (inst[k].%s.data != NULL || inst[k].%s.size == 0) dumpTable(k, &inst[k].%s);" % ((h.tables[0][1],) * 3))
+        dumps.append("    if (INST(k).%s.data != NULL || INST(k).%s.size == 0) dumpTable(k, &INST(k).%s);" % ((h.tables[0][1],) * 3))
     # memory 0
     mimp = [n for n, i in enumerate(module.imports) if i.kind == "memory"]
     acc = None
@@ -300,8 +308,8 @@ def gen_main(module, name, header_text, script, imports_spec=None, instances=1, 
             acc = cname
             break
     if mimp or module.mems:
-        field = "impmem%d[k]" % mimp[0] if mimp else "inst[k].%s" % h.mems[0][1]
-        accok = "(alive[k] ? %s(&inst[k]) == %s : -1)" % (acc, field) if acc else "-1"
+        field = "impmem%d[impOwner[k]]" % mimp[0] if mimp else "INST(k).%s" % h.mems[0][1]
+        accok = "(alive[k] ? %s(&INST(k)) == %s : -1)" % (acc, field) if acc else "-1"
         dumps.append("    if (%s != NULL) dumpMemory(k, %s, %s);" % (field, field, accok))
     # calls
     calls = []
@@ -318,16 +326,24 @@ def gen_main(module, name, header_text, script, imports_spec=None, instances=1, 
         if len(args) != len(sig.params):
             raise E2EError("call %d: %d args for %d params" % (cn, len(args), len(sig.params)))
         argl = "".join(", " + lit(t, b) for (t, b) in args)
-        call = "%s(&inst[%d]%s)" % (cname, ins, argl)
+        call = "%s(&INST(%d)%s)" % (cname, ins, argl)
         if sig.results:
             f, a = show(sig.results[0], "r")
             stmt = '%s r = %s; OUT("r %d val %s\\n", %s);' % (CT[sig.results[0]], call, cn, f, a)
         else:
             stmt = '%s; OUT("r %d val\\n");' % (call, cn)
+        for ck in sorted(children):
+            if children[ck][1] == cn:
+                calls.append("  newChild(%d, %d);" % (ck, children[ck][0]))
         calls.append("  cur = %d; callno = %d;\n  if (!alive[cur]) OUT(\"r %d skip\\n\");\n  else if (!setjmp(jb)) { %s }\n  else OUT(\"r %d trap %%d\\n\", trapCode);"
                      % (ins, cn, cn, stmt, cn))
+    for ck in sorted(children):
+        if children[ck][1] >= len(script):
+            calls.append("  newChild(%d, %d);" % (ck, children[ck][0]))
     t = open(TMPL).read()
-    rep = {"@@HEADER@@": name + ".h", "@@NINST@@": str(instances), "@@MOD@@": name,
+    rep = {"@@SKIP_CHILD@@": "    if (isChildSlot[k]) { alive[k] = 0; continue; }" if children else "",
+           "@@CHILD_SLOTS@@": "".join("%d, " % (1 if k in children else 0) for k in range(instances)),
+           "@@HEADER@@": name + ".h", "@@NINST@@": str(instances), "@@MOD@@": name,
            "@@IMPORT_STORAGE@@": "\n".join(storage), "@@HOST_FUNCS@@": "\n\n".join(hosts),
            "@@RESOLVE@@": "\n".join(resolve), "@@FUNC_IDS@@": "\n".join(funcids),
            "@@ALLOC_IMPORTS@@": "\n".join(alloc), "@@CALLS@@": "\n".join(calls), "@@DUMPS@@": "\n".join(dumps),
@@ -376,6 +392,7 @@ def parse_output(out, module, instances, ncalls, script, rundir, keep_mem=False)
     per_call = {}
     done = False
     phase = "final"
+    child_k = None
     inits = [{"mem": None, "all_globals": {}, "table": None, "mem_bytes": None} for _ in range(instances)]
 
     for line in out.splitlines():
@@ -384,6 +401,23 @@ def parse_output(out, module, instances, ncalls, script, rundir, keep_mem=False)
             continue
         if w[0] == "p":
             phase = w[1]
+            if phase == "child":
+                child_k = int(w[2])
+            continue
+        if phase == "child" and w[0] in ("b", "g", "t", "m"):
+            who = "self" if int(w[1]) == child_k else "parent"
+            dd = rs[child_k].child_dumps.setdefault(child_k, {}).setdefault(who, {"mem": None, "all_globals": {}, "table": None, "mem_bytes": None, "bound": {}})
+            if w[0] == "g":
+                t, b = w[3].split(":")
+                dd["all_globals"][int(w[2])] = (t, int(b, 16))
+            elif w[0] == "t":
+                dd["table"] = [None if int(x.split(":")[1]) == -1 else int(x.split(":")[1]) for x in w[3:]]
+            elif w[0] == "b":
+                dd["bound"][int(w[2])] = w[3] == "1"
+            else:
+                data = open(os.path.join(rundir, w[4]), "rb").read()
+                dd["mem"] = {"sha256": hashlib.sha256(data).hexdigest(), "pages": int(w[2])}
+                dd["mem_bytes"] = data if keep_mem else None
             continue
         if phase == "init" and w[0] in ("b", "g", "t", "m"):
             if w[0] == "g":
@@ -398,7 +432,11 @@ def parse_output(out, module, instances, ncalls, script, rundir, keep_mem=False)
             continue
         if w[0] == "i":
             r = rs[int(w[1])]
-            r.instantiate = ("ok",) if w[2] == "ok" else ("trap", TRAP_CLASS.get(int(w[3]), "trap%s" % w[3]))
+            r.instantiate = ("ok",) if w[2] == "ok" else (("skip",) if w[2] == "skip" else ("trap", TRAP_CLASS.get(int(w[3]), "trap%s" % w[3])))
+        elif w[0] == "c":
+            rs[int(w[1])].child_of = int(w[2])
+            if w[3] != "1":
+                rs[int(w[1])].host_inst_ok = False
         elif w[0] == "h":
             r = rs[int(w[1])]
             r.host_log.append((int(w[3]), [(a.split(":")[0], int(a.split(":")[1], 16)) for a in w[5:]]))
@@ -454,9 +492,9 @@ def has_shared_memory(module):
 
 def run_real_multi(repo_copy, workdir, w2c2_exe, module, script, imports_spec=None, instances=1, w2c2_opts=(),
                    cc="gcc", copts=("-O1",), sanitize=False, name="m", timeout=20, keep_mem=False, wasm_bytes=None,
-                   translated=None, keep=False, init_dump=False):
+                   translated=None, keep=False, init_dump=False, children=None):
     """script = [(instance, export name, [(ty, bits)])].  Returns [RealResult] (one per instance); the
-    `results` of instance k are those of its own calls, in order."""
+    `results` of instance k are those of its own calls, in order.  children: see gen_main."""
     tr = translated or translate(w2c2_exe, workdir, name, wasm_bytes if wasm_bytes is not None else encode(module), w2c2_opts)
     rs = [RealResult() for _ in range(instances)]
     if has_shared_memory(module) and not any("WASM_THREADS" in o for o in copts):
@@ -474,7 +512,7 @@ def run_real_multi(repo_copy, workdir, w2c2_exe, module, script, imports_spec=No
     if "gnu-ld" in tr.cmd and not getattr(tr, "objs", None):
         link_datasegments(tr)
     try:
-        main_text = gen_main(module, tr.name, open(tr.header).read(), script, imports_spec, instances, init_dump)
+        main_text = gen_main(module, tr.name, open(tr.header).read(), script, imports_spec, instances, init_dump, children)
         main_c = os.path.join(tr.dir, "e2e_main_%s.c" % tr.name)
         with open(main_c, "w") as f:
             f.write(main_text)
